@@ -499,6 +499,13 @@ func check(c Case, r *vh.R) {
 			r.Failf("extension-undetected", "%s: %d octets were appended to the honest stream, yet the decoder reported clean end-of-stream", what(), c.Mut.A)
 			return
 		}
+		if len(stream) < len(honest) && bytes.Equal(stream, honest[:len(stream)]) {
+			// "... truncation at any point ... is detected": a proper prefix of the honest stream lacks
+			// payload octets, a proof, or (for the empty payload of draft 02, whose stream is nothing but
+			// the record-size field) part of that field; it is never a stream of its own
+			r.Failf("truncation-undetected", "%s: the stream is the honest one cut to %d of its %d octets, yet the decoder reported clean end-of-stream", what(), len(stream), len(honest))
+			return
+		}
 		r.Class("clean-eof-full")
 		if c.EmptyFinal {
 			r.Class("explicit-empty-final-record:clean-eof-full")
@@ -697,7 +704,42 @@ func TestExhaustiveMutations(t *testing.T) {
 			}
 		}
 	}
-	vh.Exhaustive("exh", fmt.Sprintf("drafts {02,03} x record size %v x payload lengths {0,1,rs-1,rs,rs+1,2rs,2rs+1,3rs%s} x %d payload filling(s); for each honest stream: EVERY single-bit flip, EVERY truncation length, appended suffixes of {1,31,32,33,rs,rs+32} octets (zero and random), every record swap / unit swap / unit duplication / unit removal / proof replacement, re-framing (record-size field set to {rs+31,rs+32,rs+33,2rs+64,len-8,len,16384} and the stream cut at every unit end / record end / not at all), record-size field set to {0,1,rs-1,rs+1,16384,16385,2^63,2^64-1} and the honest stream under limits {16384,rs-1,rs,rs+1}: %d streams, %d decodes in this process (shard %d of %d)",
+	// short streams under LARGE record sizes: a payload of 0 / 1 / 5 octets is one short final
+	// record whatever the record size, so the stream is 8..13 octets long while the record-size
+	// field holds 255 .. 2^20 (its low octets zero, its value spread over two or three octets).
+	// Every truncation - inside the field, between field and record, inside the record - and every
+	// single-bit flip, under the limit 2^20 and under the record size itself as the limit.
+	if shard == 0 {
+		for _, draft := range []int{2, 3} {
+			for _, rs := range []int{255, 256, 257, 511, 512, 513, 4095, 4096, 4097, 16383, 16384, 16385, 65535, 65536, 65537, 1 << 20} {
+				for _, l := range []int{0, 1, 5} {
+					p := make([]byte, l)
+					rng.Read(p)
+					hl := honestLen(draft, l, rs)
+					nStreams++
+					i := 0
+					for _, max := range []uint64{1 << 20, uint64(rs)} {
+						muts := []Mut{{Kind: "none"}}
+						for n := 0; n < hl; n++ {
+							muts = append(muts, Mut{Kind: "trunc", A: n})
+						}
+						for b := 0; b < 8*hl; b++ {
+							muts = append(muts, Mut{Kind: "flip", A: b})
+						}
+						for _, m := range muts {
+							c := Case{Draft: draft, RS: rs, Len: l, Payload: p, MaxRS: max, Mut: m, Reads: readPattern(7, i), Chunk: []int{0, 1, 7, 3}[i%4], EOFWithData: i/4%2 == 1}
+							i++
+							nCases++
+							if !exhProp.One(t, c) {
+								return
+							}
+						}
+					}
+				}
+			}
+		}
+	}
+	vh.Exhaustive("exh", fmt.Sprintf("short streams (payloads of 0 / 1 / 5 octets) under record sizes 255 .. 2^20: every truncation and bit flip; drafts {02,03} x record size %v x payload lengths {0,1,rs-1,rs,rs+1,2rs,2rs+1,3rs%s} x %d payload filling(s); for each honest stream: EVERY single-bit flip, EVERY truncation length, appended suffixes of {1,31,32,33,rs,rs+32} octets (zero and random), every record swap / unit swap / unit duplication / unit removal / proof replacement, re-framing (record-size field set to {rs+31,rs+32,rs+33,2rs+64,len-8,len,16384} and the stream cut at every unit end / record end / not at all), record-size field set to {0,1,rs-1,rs+1,16384,16385,2^63,2^64-1} and the honest stream under limits {16384,rs-1,rs,rs+1}: %d streams, %d decodes in this process (shard %d of %d)",
 		sizes, map[bool]string{false: "", true: ",2rs-1,3rs-1,3rs+1,4rs,5rs"}[vh.Thorough()], fills, nStreams, nCases, shard, shards))
 }
 
